@@ -197,7 +197,11 @@ rfbEncryptBytes(unsigned char *bytes, char *passwd)
 	}
     }
 
-    encrypt_rfbdes(bytes, &out_len, key, bytes, CHALLENGESIZE);
+    if (!encrypt_rfbdes(bytes, &out_len, key, bytes, CHALLENGESIZE)) {
+	/* Never hand back the plaintext: the challenge itself would then be
+	   accepted as the response. Random bytes match no response. */
+	random_bytes(bytes, CHALLENGESIZE);
+    }
 }
 
 void
